@@ -1,6 +1,8 @@
 // C01 harness: Boolean operations on closed paths in general position, judged by exact winding numbers (REGIONS).
+#define VERIF_PRIVATE_ACCESS
 #include "unity.h"
 #include "gp.h"
+#include "aeltrace.h"
 using namespace vh;
 
 static const ClipType CTS[] = {ClipType::Intersection, ClipType::Union, ClipType::Difference, ClipType::Xor};
@@ -17,6 +19,7 @@ static std::string run_all(Rng& g, const GpInput& in, bool use_tree_sometimes) {
     c.AddClip(in.clip);
     Paths64 sol;
     bool ok;
+    AelTraceScope trace;
     if (use_tree_sometimes && g.chance(25)) {
       PolyTree64 tree;
       ok = c.Execute(ct, fr, tree);
@@ -26,6 +29,8 @@ static std::string run_all(Rng& g, const GpInput& in, bool use_tree_sometimes) {
       ok = c.Execute(ct, fr, sol);
       stat("exec.paths");
     }
+    emitM("ael-trace", trace.request(false, (int)ct, (int)fr), "ok");
+    stat("trace.items", ael_trace().nitems);
     if (!ok) emitF("execute-returned-false", "ct=" + std::to_string((int)ct) + " fr=" + std::to_string((int)fr) + " subj=" + S(in.subj) + " clip=" + S(in.clip));
     stat(std::string("opt.preserve_collinear.") + (pc ? "on" : "off"));
     stat(std::string("opt.reverse.") + (rev ? "on" : "off"));
@@ -52,6 +57,24 @@ int main(int argc, char** argv) {
     stat("input.magnitude." + std::to_string(in.R));
     stat("input.probes", (long long)probes.size());
   }
+  // degenerate (not general position) inputs: the bookkeeping invariant must hold for them too (trace level only)
+  for (int i = 0; i < (thorough ? 3000 : 150); ++i) {
+    int range = (i % 3 == 0) ? 8 : (i % 3 == 1 ? 40 : 1000);
+    auto mk = [&](int n) { Path64 p; for (int k = 0; k < n; ++k) p.emplace_back(g.range(0, range), g.range(0, range)); return p; };
+    Paths64 s, cl; int ns = (int)g.range(1, 3), nc = (int)g.range(1, 3);
+    for (int k = 0; k < ns; ++k) s.push_back(mk((int)g.range(3, 8)));
+    for (int k = 0; k < nc; ++k) cl.push_back(mk((int)g.range(3, 8)));
+    ClipType ct = CTS[g.next() % 4]; FillRule fr = FRS[g.next() % 4];
+    Clipper64 c; c.AddSubject(s); c.AddClip(cl);
+    Paths64 sol;
+    AelTraceScope trace;
+    c.Execute(ct, fr, sol);
+    emitM("ael-trace.degenerate", trace.request(false, (int)ct, (int)fr), "ok");
+    stat("trace.items", ael_trace().nitems);
+  }
+  stat("trace.edge_observations", ael_trace().nedges);
+  stat("trace.joined_edge_observations", ael_trace().njoined);
+  stat("trace.horizontal_edge_observations", ael_trace().nhorz);
   flush_stats();
   return 0;
 }
